@@ -270,7 +270,7 @@ func refKMSWrap(sk []byte) []byte {
 func refKMSUnwrap(ct []byte) ([]byte, error) { return kit.GCMOpen([]byte(staticKey), ct) }
 
 func TestTwoWayDifferential(t *testing.T) {
-	kit.Check(t, 600, 64000, func(t *rapid.T) {
+	kit.Check(t, 2000, 64000, func(t *rapid.T) {
 		c := newCarrier(t)
 		defer c.done()
 		service, product, part := drawName(t, "service"), drawName(t, "product"), drawName(t, "partition")
